@@ -109,6 +109,14 @@ CHECKS = {
          "mechanism fails); every read-only entry point is run on real objects with each callback raising at its k-th invocation for "
          "every k, snapshots around the call and the answer of a repeated call judged by TLC; caching off and on.",
          "TLC model checking (fault points) + trace validation (fault enumeration over callback invocations)"),
+ "C10": ("model_checking", "6 C10",
+         "TLC checks the deferred-save queue (EGPickle) on every object graph with 3 objects (4 in the thorough tier) incl. sharing, "
+         "cycles and self-references (prefix / final equality with the recursive stream, memo order) and refutes the wrong splice "
+         "order; the real lazy pickler's effect order is validated by TLC against the specified queue algorithm run on the emission "
+         "tree of the recursive reference pickler; round trips (all protocols, pickle / dill, same process and fresh interpreter, "
+         "caching on/off on either side) are judged for isomorphism of structure, order, classes, uids, attributes and sharing, the "
+         "history is continued on the copy under the C03 judge, and graphs far deeper than the recursion limit are serialised.",
+         "TLC model checking (queue mechanism) + trace validation of the real pickler's effects + round-trip judging"),
 }
 
 NOT_YET = {}
